@@ -628,6 +628,16 @@ impl<T> Block for NoCopyFileSink<T>""")]),
          edits=[E("src/au.rs", "        v.extend(0x2e736e64u32.to_be_bytes());", "        v.extend(0x2e736e65u32.to_be_bytes());")]),
     dict(name="sw-c09-auencode-room-times-size", prop="C09", expect="C09.R10:<au::AuEncode as block::Block>::work:produce",
          edits=[E("src/au.rs", "let n = std::cmp::min(i.len(), o.len() / ss);", "let n = std::cmp::min(i.len(), o.len() * ss);")]),
+    dict(name="sw-c16-sigmf-restart-left-is-start", prop="C16", expect="C16.R12:<sigmf::SigMFSource as block::Block>::work:restart(self.left)",
+         edits=[E("src/sigmf.rs", "                self.left = self.range.1;", "                self.left = self.range.0;")]),
+    dict(name="sw-c16-sigmf-eof-when-data-left", prop="C16", expect="C16.R13:<sigmf::SigMFSource as block::Block>::work:EOF",
+         edits=[E("src/sigmf.rs", "            if want_bytes == 0 {", "            if want_bytes != 0 {")]),
+    dict(name="sw-c08-hilbert-produce-dropped", prop="C08", expect="C08.R13:<hilbert::Hilbert as block::Block>::work:write",
+         edits=[E("src/hilbert.rs", "        oo.produce(n, &tags);\n", "")]),
+    dict(name="sw-c08-resampler-produce-dropped", prop="C08", expect="C08.R13:<rational_resampler::RationalResampler as block::Block>::work:write",
+         edits=[E("src/rational_resampler.rs", "        o.produce(opos, &[]);\n", "")]),
+    dict(name="sw-c16-repeat-wrapping-sub", prop="C16", expect="C16.R1:Repeat::again:wrapping_sub",
+         edits=[E("src/lib.rs", "Repeater::Finite(n.saturating_sub(1));", "Repeater::Finite(n.wrapping_sub(1));")]),
     dict(name="sw-c16-tcpsource-closed-again", prop="C16", expect="C16.R8:<tcp_source::TcpSource as block::Block>::work:read()==0",
          edits=[E("src/tcp_source.rs", "            return Ok(BlockRet::EOF);", "            return Ok(BlockRet::Again);")]),
     dict(name="sw-c08-fill-deleted", prop="C08", expect="C08.R4:<file_source::FileSource as block::Block>::work:produce",
